@@ -21,6 +21,23 @@ CHECKS = {
         design="§4 C12"),
 }
 
+CHECKS["C19"] = dict(
+    text="Pairing/ownership analysis of goag.go on the CFG of the generating function (path-sensitive in the three controlling "
+         "conditions): every owned file is written or removed on every success path with the documented polarity, the writer "
+         "truncates, file-system mutators and reads reachable from Generate are exactly the enumerated sites. Holds for all "
+         "invocation histories by induction over runs; it is a structural sufficient condition, not an observation of directories.",
+    note=TRUST + " Successful runs only; byte-level idempotence additionally relies on C12.",
+    technique="static analysis: go/cfg path-sensitive typestate (written/removed per owned file) + who-may-call over the VTA call graph",
+    design="§4 C19")
+CHECKS["C13"] = dict(
+    text="SSA value-flow: the text after `const SpecFile string = ` is strconv.Quote of a value that traces back through parameters, "
+         "closure captures and string/[]byte conversions only to os.ReadFile(spec file) — clause (a) for ALL byte strings is thereby "
+         "delegated to strconv.Quote's contract. Serving clause: structural rules on the generated router of every corpus program "
+         "(spec branch precedes routing and middlewares; handler writes the package-level []byte(SpecFile) once).",
+    note=TRUST + " strconv.Quote denotes exactly its input; gofmt does not alter string literals.",
+    technique="static analysis: backward SSA value-flow (go/ssa + VTA callers) and AST shape rules on instantiated router code",
+    design="§4 C13")
+
 NA_REASON = {}
 DEFAULT_NA = "not claimed yet: static checker for this property is still under construction (design in DESIGN.md §4)"
 
